@@ -32,15 +32,20 @@ theorem bl17Pad.filler {t : Tok} (h : bl17Pad t) : A17Filler t := by
   · exact Or.inl (Or.inl h)
   · exact Or.inr h
 
-/-- `lF` is the leaf `l` with filler inserted behind one of its blanks (or `l` itself) -/
+/-- `lF` is the leaf `l` with filler inserted behind one of its blanks (`ins`), behind several of them or repeatedly
+    (`more`, wave 10), or `l` itself -/
 inductive FillerIn : List Tok → List Tok → Prop
   | same (l : List Tok) : FillerIn l l
   | ins (X : List Tok) (w : Tok) (F Y : List Tok) : X ≠ [] → isSpTok w = true → (∀ t ∈ F, bl17Pad t) →
       FillerIn (X ++ w :: (F ++ Y)) (X ++ w :: Y)
+  /-- wave 10: a FURTHER insertion, behind a single blank of a list that already carries filler (any number of
+      insertion points in one leaf) -/
+  | more (X : List Tok) (w : Tok) (F Y l : List Tok) : FillerIn (X ++ w :: Y) l → X ≠ [] → isSpTok w = true →
+      (∀ t ∈ F, bl17Pad t) → FillerIn (X ++ w :: (F ++ Y)) l
 
 theorem FillerIn.head {lF l : List Tok} (h : FillerIn lF l) {u : Tok} {r : List Tok} (hl : l = u :: r) :
     ∃ r', lF = u :: r' := by
-  cases h with
+  induction h with
   | same => exact ⟨r, hl⟩
   | ins X w F Y hX hw hF =>
     cases X with
@@ -48,9 +53,16 @@ theorem FillerIn.head {lF l : List Tok} (h : FillerIn lF l) {u : Tok} {r : List 
     | cons x X' =>
       simp only [List.cons_append, List.cons.injEq] at hl
       exact ⟨X' ++ w :: (F ++ Y), by rw [← hl.1]; rfl⟩
+  | more X w F Y l h0 hX hw hF ih =>
+    obtain ⟨r0, e⟩ := ih hl
+    cases X with
+    | nil => exact absurd rfl hX
+    | cons x X' =>
+      simp only [List.cons_append, List.cons.injEq] at e
+      exact ⟨X' ++ w :: (F ++ Y), by rw [← e.1]; rfl⟩
 
 theorem FillerIn.mem {lF l : List Tok} (h : FillerIn lF l) {u : Tok} (hu : u ∈ lF) : u ∈ l ∨ bl17Pad u := by
-  cases h with
+  induction h with
   | same => exact Or.inl hu
   | ins X w F Y hX hw hF =>
     simp only [List.mem_append, List.mem_cons] at hu ⊢
@@ -59,6 +71,13 @@ theorem FillerIn.mem {lF l : List Tok} (h : FillerIn lF l) {u : Tok} (hu : u ∈
     · exact Or.inl (Or.inr (Or.inl hu))
     · exact Or.inr (hF u hu)
     · exact Or.inl (Or.inr (Or.inr hu))
+  | more X w F Y l h0 hX hw hF ih =>
+    simp only [List.mem_append, List.mem_cons] at hu
+    rcases hu with hu | hu | hu | hu
+    · exact ih (by simp [hu])
+    · exact ih (by simp [hu])
+    · exact Or.inr (hF u hu)
+    · exact ih (by simp [hu])
 
 /-- kinds of the actual tokens of a leaf with filler -/
 theorem bl17_leaf_kinds {cs : CharSpec} {allowed : TK → Bool} {l lF tl : List Tok} (hl : leafOK cs allowed l = true)
@@ -81,7 +100,7 @@ theorem bl17_leaf_text {cs : CharSpec} {allowed : TK → Bool} {pre l lF post ts
     (hs : Spells ts (pre ++ lF ++ post)) (hpre : padOK cs pre = true) (hpost : padOK cs post = true)
     (hl : leafOK cs allowed l = true) (hF : FillerIn lF l) (hsp : cs.uws ' ' = true) (off : Nat) :
     (buildText off ts).trimmed cs = leafText l ∧ (buildText off ts).isTextEmpty cs = false := by
-  cases hF with
+  induction hF generalizing ts with
   | same => exact rt_leaf_text hs hpre hpost hl off
   | ins X w F Y hX hw hFp =>
     obtain ⟨t1, tpost, rfl, hs1, hspost⟩ := hs.append_inv
@@ -104,6 +123,29 @@ theorem bl17_leaf_text {cs : CharSpec} {allowed : TK → Bool} {pre l lF post ts
         (by simp [Spells, Tok.kt, hwk, hwt]) hsY))).append hspost)
       simpa using this
     obtain ⟨h1, h2⟩ := rt_leaf_text hs0 hpre hpost hl off
+    rw [e1, hloose.trimmed, hloose.empty]
+    exact ⟨h1, h2⟩
+  | more X w F Y l h0 hX hw hFp ih =>
+    obtain ⟨t1, tpost, rfl, hs1, hspost⟩ := hs.append_inv
+    obtain ⟨tpre, t2, rfl, hspre, hs2⟩ := hs1.append_inv
+    obtain ⟨tX, t3, rfl, hsX, hs3⟩ := hs2.append_inv
+    obtain ⟨tw, t4, rfl, hwk, hwt, hs4⟩ := hs3.cons_inv
+    obtain ⟨tF, tY, rfl, hsF, hsY⟩ := hs4.append_inv
+    obtain ⟨wk, wt⟩ := isSpTok_facts hw
+    have hFill : ∀ t ∈ tF, A17Filler t := by
+      intro t ht
+      obtain ⟨u, hu, hk, htx⟩ := hsF.mem ht
+      rcases hFp u hu with h | h
+      · exact Or.inl (Or.inl (by rw [hk]; exact h))
+      · exact Or.inr ⟨by rw [hk]; exact h.1, by rw [htx]; exact h.2⟩
+    have hloose := bl17_loose_after_blank cs hsp off off (tpre ++ tX) tF (tY ++ tpost) tw (by rw [hwk]; exact wk)
+      (by rw [hwt, wt]; simp) (by rw [hwt, wt]; simp) hFill
+    have e1 : tpre ++ (tX ++ tw :: (tF ++ tY)) ++ tpost = tpre ++ tX ++ [tw] ++ tF ++ (tY ++ tpost) := by simp
+    have hs0 : Spells (tpre ++ tX ++ [tw] ++ (tY ++ tpost)) (pre ++ (X ++ w :: Y) ++ post) := by
+      have := ((hspre.append (hsX.append (Spells.append (ta := [tw]) (a := [w])
+        (by simp [Spells, Tok.kt, hwk, hwt]) hsY))).append hspost)
+      simpa using this
+    obtain ⟨h1, h2⟩ := ih hs0 hl
     rw [e1, hloose.trimmed, hloose.empty]
     exact ⟨h1, h2⟩
 
